@@ -335,7 +335,7 @@ func TestVerif_C05(t *testing.T) {
 							c := base
 							c.Cuts = []int{a}
 							run(c)
-							if (nl1 == 1 && nl2 == 1 && si == 0 && nn == 2) || ev.Thorough() {
+							if (si == 0 && nn == 2) || ev.Thorough() {
 								for b := a + 1; b < L; b++ {
 									c2 := base
 									c2.Cuts = []int{a, b}
@@ -368,29 +368,34 @@ func TestVerif_C05(t *testing.T) {
 				if cons == "byte" && nn > 5000 && !ev.Thorough() {
 					continue
 				}
-				base := c05Case{NL1: 1, Status: "FULLRESYNC", NL2: 1, N: nn, Tail: 3, Bufio: bsz, Consumer: cons}
-				stream, hl, _, _ := c05Stream(base)
-				marks := map[int]bool{}
-				for _, p := range []int{1, hl - 1, hl, hl + 1, hl + nn - 1, hl + nn, hl + nn + 1, hl + 8192 - 1, hl + 8192, hl + 8192 + 1, hl + 4096, len(stream) - 1} {
-					if p > 0 && p < len(stream) {
-						marks[p] = true
+				for _, tail := range []int{3, 600} {
+					if tail == 600 && cons == "byte" && !ev.Thorough() {
+						continue
 					}
-				}
-				var ms []int
-				for p := 1; p < len(stream); p++ {
-					if marks[p] {
-						ms = append(ms, p)
+					base := c05Case{NL1: 1, Status: "FULLRESYNC", NL2: 1, N: nn, Tail: tail, Bufio: bsz, Consumer: cons}
+					stream, hl, _, _ := c05Stream(base)
+					marks := map[int]bool{}
+					for _, p := range []int{1, hl - 1, hl, hl + 1, hl + nn - 1, hl + nn, hl + nn + 1, hl + 8192 - 1, hl + 8192, hl + 8192 + 1, hl + 4096, hl + nn + 8191, hl + nn + 8192, hl + nn + 8193, len(stream) - 1} {
+						if p > 0 && p < len(stream) {
+							marks[p] = true
+						}
 					}
-				}
-				run(base)
-				for i, a := range ms {
-					c := base
-					c.Cuts = []int{a}
-					run(c)
-					for _, b := range ms[i+1:] {
-						c2 := base
-						c2.Cuts = []int{a, b}
-						run(c2)
+					var ms []int
+					for p := 1; p < len(stream); p++ {
+						if marks[p] {
+							ms = append(ms, p)
+						}
+					}
+					run(base)
+					for i, a := range ms {
+						c := base
+						c.Cuts = []int{a}
+						run(c)
+						for _, b := range ms[i+1:] {
+							c2 := base
+							c2.Cuts = []int{a, b}
+							run(c2)
+						}
 					}
 				}
 			}
